@@ -271,11 +271,12 @@ type vf15Case struct {
 	Leading    string // "", or the kind of unusable config placed before the real one in the list
 	Trailing   string // "", or what follows the real config in the list: a second usable config (key rotation) / an unknown version
 	RetryCount int    // reject: number of configs the server offers for retry (>= 1)
+	OlderKeys  int    // accept: number of other keys (other config ids / key pairs) the server lists BEFORE the matching one
 }
 
 func (c vf15Case) String() string {
-	return fmt.Sprintf("%s/%s id=%d suites=%v maxname=%d public=%q secret=%q leading=%q trailing=%q retry=%d seed=%d",
-		c.Ident.Name, c.Mode, c.ConfigID, c.Suites, c.MaxNameLen, c.Public, c.Secret, c.Leading, c.Trailing, c.RetryCount, c.Seed)
+	return fmt.Sprintf("%s/%s id=%d suites=%v maxname=%d public=%q secret=%q leading=%q trailing=%q retry=%d olderkeys=%d seed=%d",
+		c.Ident.Name, c.Mode, c.ConfigID, c.Suites, c.MaxNameLen, c.Public, c.Secret, c.Leading, c.Trailing, c.RetryCount, c.OlderKeys, c.Seed)
 }
 
 const vf15Alnum = "abcdefghijklmnopqrstuvwxyz0123456789"
@@ -340,6 +341,7 @@ func vf15GenCase(rt *rapid.T, idents []vf15Ident) vf15Case {
 		c.Leading = []string{"unknown-version", "unsupported-kem", "mandatory-extension", "bad-public-name"}[rapid.IntRange(0, 3).Draw(rt, "leading")]
 	}
 	c.RetryCount = rapid.IntRange(1, 2).Draw(rt, "retryCount")
+	c.OlderKeys = rapid.IntRange(0, 3).Draw(rt, "olderServerKeys")
 	return c
 }
 
@@ -440,7 +442,17 @@ func vf15Run(st *vfStats, t vfFataler, c vf15Case) {
 	var serverKeys []EncryptedClientHelloKey
 	var wantRetry []byte
 	if !reject {
-		serverKeys = []EncryptedClientHelloKey{{Config: cfg.Raw, PrivateKey: cfg.Priv.Bytes(), SendAsRetry: true}}
+		// a server in the middle of a key rotation: other keys listed before (and one after) the matching one
+		for i := 0; i < c.OlderKeys; i++ {
+			n := vf15NewECHConfig(c.Seed, fmt.Sprintf("older%d", i), c.ConfigID+uint8(20+i), []vf15Suite{{1, 1}, {1, 3}}, c.MaxNameLen, c.Public)
+			serverKeys = append(serverKeys, EncryptedClientHelloKey{Config: n.Raw, PrivateKey: n.Priv.Bytes(), SendAsRetry: i%2 == 0})
+		}
+		serverKeys = append(serverKeys, EncryptedClientHelloKey{Config: cfg.Raw, PrivateKey: cfg.Priv.Bytes(), SendAsRetry: true})
+		if c.OlderKeys > 1 {
+			n := vf15NewECHConfig(c.Seed, "newer", c.ConfigID+40, []vf15Suite{{1, 1}}, c.MaxNameLen, c.Public)
+			serverKeys = append(serverKeys, EncryptedClientHelloKey{Config: n.Raw, PrivateKey: n.Priv.Bytes(), SendAsRetry: false})
+		}
+		st.Class(fmt.Sprintf("server-keys-before-the-matching-one=%d", c.OlderKeys))
 	} else {
 		// the server rotated its key: same config id and public name, new key pair(s)
 		var retryRaws [][]byte
@@ -711,7 +723,7 @@ func vf15DirectedCase(id vf15Ident, mode string, n int) vf15Case {
 		Ident: id, Mode: mode, Seed: uint64(1000 + n),
 		Secret: fmt.Sprintf("hidden%02dservicename.c15.test", n), SecretRand: fmt.Sprintf("hidden%02dservicename", n),
 		Public: "public.c15.test", ConfigID: uint8(17 * n), Suites: []vf15Suite{{1, 1}, {1, 2}, {1, 3}},
-		MaxNameLen: uint8(n * 37), RetryCount: 1 + n%2,
+		MaxNameLen: uint8(n * 37), RetryCount: 1 + n%2, OlderKeys: n % 3,
 	}
 }
 
